@@ -1,8 +1,11 @@
 """C18 — resource_added announces every publication exactly once, on the right context."""
+from ..core import Composite
 from ..kernel_prop import KernelProp
+from ..startup_prop import StartupProp
 
 
-class C18(KernelProp):
+class C18Kernel(KernelProp):
+    kinds = ("ctx",)
     id = "C18"
     tags = ("C18",)
     quick_cases = 800
@@ -24,6 +27,31 @@ class C18(KernelProp):
         bad = any(o["op"] in ("add", "addf") and r["res"][:1] != ["ok"] for o, r in zip(case["ops"], impl))
         gen = any(" r" in e and o["op"] in ("getnw", "get", "finish", "inject") for o, r in zip(case["ops"], impl) for e in r["ev"])
         return nctx >= 3 and ok and bad and gen
+
+
+class C18Startup(StartupProp):
+    """Publications made by components through their own (component) context, with every kind of factory callable:
+    each is announced once on the context start_component() was called in - with its final name, types, description
+    and kind - and a publication that fails announces nothing."""
+    id = "C18"
+    kinds = ("startup",)
+    tags = ("C18",)
+    gen_kwargs = {"max_nodes": 8, "max_depth": 3, "p_await": 0.3, "p_stuck": 0.0, "p_fail": 0.1}
+
+    def nontrivial(self, case, impl):
+        return sum(1 for e in impl["trace"] if e["l"][0] in ("pub", "pubFac")) >= 2
+
+
+class C18(Composite):
+    id = "C18"
+    quick_cases = C18Kernel.quick_cases
+    thorough_cases = C18Kernel.thorough_cases
+    parts = [(7, C18Kernel()), (1, C18Startup())]
+    rule = C18Kernel.rule + ("; one case in eight is a component tree start-up (as in C05) with an event listener on the "
+                             "surrounding context: every publication a component makes through its own context "
+                             "(resources, factories given as lambda / partial / callable object / function with "
+                             "unresolvable annotations) is announced exactly once there, with its final name")
+    assumptions = C18Kernel.assumptions
 
 
 PROP = C18()
